@@ -851,11 +851,21 @@ func genPlan() *rapid.Generator[Plan] {
 				// a listener registered first on the same node, with the same or with other placeholder names
 				lt := append([]string(nil), toks...)
 				if rapid.Bool().Draw(t, "conflict") {
+					star, named := -1, -1
 					for k, tk := range lt {
-						if len(tk) > 1 && tk[0] == '$' {
-							lt[k] = tk + "q"
-							break
+						if tk == "*" && star < 0 {
+							star = k
 						}
+						if len(tk) > 1 && tk[0] == '$' && named < 0 {
+							named = k
+						}
+					}
+					if star >= 0 && named >= 0 && rapid.Bool().Draw(t, "swap") {
+						// the same names, at other token positions: an anonymous and a named
+						// placeholder change places
+						lt[star], lt[named] = lt[named], lt[star]
+					} else if named >= 0 {
+						lt[named] += "q"
 					}
 				}
 				pl.Regs = append(pl.Regs, Reg{Full: lt, At: r.At, Marker: 100 + i, ListenerOnly: true})
